@@ -79,6 +79,7 @@ private:
   }
   void AfterInsert(EntityUID target);
   void ResetDependants(EntityUID target);
+  void ResetValueOf(EntityUID dependant);
 };
 
 } // namespace ccl::semantic
